@@ -32,7 +32,7 @@ theorem countOpen_upd_lt (ss : Nat → Option Sess) (k : Nat) (v : Option Sess) 
 /-- the counter invariant -/
 def CInv (st : State) : Prop := st.sessionsCurrent = countOpen st.sessions st.nextSid
 
-theorem cinv_insert (st : State) (h : Inv st) (c : CInv st) (s : Sess) (pi : Nat → Option Nat) :
+theorem cinv_insert (st : State) (h : Inv cfg st) (c : CInv st) (s : Sess) (pi : Nat → Option Nat) :
     CInv { st with sessions := upd st.sessions st.nextSid (some s), peerIndex := pi, nextSid := st.nextSid + 1,
                    sessionsCurrent := st.sessionsCurrent + 1 } := by
   have hnone : st.sessions st.nextSid = none := by
@@ -43,7 +43,7 @@ theorem cinv_insert (st : State) (h : Inv st) (c : CInv st) (s : Sess) (pi : Nat
   simp only [countOpen, countOpen_upd_ge _ _ _ _ (Nat.le_refl _), upd_same, Option.isSome_some, if_true]
   omega
 
-theorem cinv_touch (st : State) (c : CInv st) (sid : Nat) (s s' : Sess) (hs : st.sessions sid = some s) (h : Inv st) :
+theorem cinv_touch (st : State) (c : CInv st) (sid : Nat) (s s' : Sess) (hs : st.sessions sid = some s) (h : Inv cfg st) :
     CInv { st with sessions := upd st.sessions sid (some s') } := by
   unfold CInv at *
   have hlt := h.fresh sid s hs
@@ -52,7 +52,7 @@ theorem cinv_touch (st : State) (c : CInv st) (sid : Nat) (s s' : Sess) (hs : st
   show st.sessionsCurrent = countOpen (upd st.sessions sid (some s')) st.nextSid
   omega
 
-theorem closeNow_cinv (cfg : Cfg) (st : State) (sid : Nat) (why : Why) (h : Inv st) (c : CInv st) : CInv (closeNow cfg st sid why).1 := by
+theorem closeNow_cinv (cfg : Cfg) (st : State) (sid : Nat) (why : Why) (h : Inv cfg st) (c : CInv st) : CInv (closeNow cfg st sid why).1 := by
   unfold closeNow
   cases hs : st.sessions sid with
   | none => exact c
@@ -65,13 +65,13 @@ theorem closeNow_cinv (cfg : Cfg) (st : State) (sid : Nat) (why : Why) (h : Inv 
     simp at this
     omega
 
-theorem closeAll_cinv (cfg : Cfg) (why : Why) : ∀ (l : List Nat) (st : State), Inv st → CInv st → CInv (closeAll cfg why st l).1
+theorem closeAll_cinv (cfg : Cfg) (why : Why) : ∀ (l : List Nat) (st : State), Inv cfg st → CInv st → CInv (closeAll cfg why st l).1
   | [], _, _, c => c
   | x :: rest, st, h, c => by
     simp only [closeAll]
     exact closeAll_cinv cfg why rest _ (closeNow_inv cfg st x why h) (closeNow_cinv cfg st x why h c)
 
-theorem recvOne_cinv (cfg : Cfg) (lid : Lid) (st : State) (d : Nat × Bytes) (h : Inv st) (c : CInv st) : CInv (recvOne cfg lid st d).1 := by
+theorem recvOne_cinv (cfg : Cfg) (lid : Lid) (st : State) (d : Nat × Bytes) (h : Inv cfg st) (c : CInv st) : CInv (recvOne cfg lid st d).1 := by
   unfold recvOne
   simp only
   split
@@ -85,13 +85,13 @@ theorem recvOne_cinv (cfg : Cfg) (lid : Lid) (st : State) (d : Nat × Bytes) (h 
       · rename_i s hs
         exact cinv_touch st c _ s _ hs h
 
-theorem recvMany_cinv (cfg : Cfg) (lid : Lid) : ∀ (ds : List (Nat × Bytes)) (st : State), Inv st → CInv st → CInv (recvMany cfg lid st ds).1
+theorem recvMany_cinv (cfg : Cfg) (lid : Lid) : ∀ (ds : List (Nat × Bytes)) (st : State), Inv cfg st → CInv st → CInv (recvMany cfg lid st ds).1
   | [], _, _, c => c
   | d :: ds, st, h, c => by
     simp only [recvMany]
     exact recvMany_cinv cfg lid ds _ (recvOne_inv cfg lid st d h) (recvOne_cinv cfg lid st d h c)
 
-theorem clientRecvMany_cinv (cfg : Cfg) (sid : Nat) : ∀ (ds : List Bytes) (st : State), Inv st → CInv st → CInv (clientRecvMany cfg sid st ds).1
+theorem clientRecvMany_cinv (cfg : Cfg) (sid : Nat) : ∀ (ds : List Bytes) (st : State), Inv cfg st → CInv st → CInv (clientRecvMany cfg sid st ds).1
   | [], _, _, c => c
   | d :: ds, st, h, c => by
     simp only [clientRecvMany]
@@ -133,7 +133,7 @@ theorem shutdownDrain_cinv (cfg : Cfg) (st : State) (c : CInv st) : CInv (shutdo
   show (drainAll cfg st (List.range st.nextSid)).1.sessionsCurrent = countOpen (fun _ => none) (drainAll cfg st (List.range st.nextSid)).1.nextSid
   rw [hz, h1]; omega
 
-theorem step_cinv (cfg : Cfg) (tok : Nat) (st : State) (i : In) (h : Inv st) (c : CInv st) : CInv (step cfg tok st i).1 := by
+theorem step_cinv (cfg : Cfg) (tok : Nat) (st : State) (i : In) (h : Inv cfg st) (c : CInv st) : CInv (step cfg tok st i).1 := by
   cases i with
   | listen v6 => exact c
   | recvFrom lid dgs =>
@@ -150,6 +150,18 @@ theorem step_cinv (cfg : Cfg) (tok : Nat) (st : State) (i : In) (h : Inv st) (c 
       · split
         · exact clientRecvMany_cinv cfg sid dgs st h c
         · exact c
+  | recvKeyFail lid n =>
+    simp only [step]; split
+    · exact c
+    · split <;> exact c
+  | viaKeyFail lid =>
+    simp only [step]
+    unfold CInv at *
+    have hnone : st.sessions st.nextSid = none := by
+      cases hx : st.sessions st.nextSid with
+      | none => rfl
+      | some x => have := h.fresh _ _ hx; omega
+    simp [countOpen, hnone, c]
   | connect a v6 => exact cinv_insert st h c _ _
   | via lid a v6 =>
     simp only [step, viaDo]
@@ -229,7 +241,7 @@ theorem step_cinv (cfg : Cfg) (tok : Nat) (st : State) (i : In) (h : Inv st) (c 
   | gc => exact closeAll_cinv cfg _ _ st h c
   | restart => exact shutdownDrain_cinv cfg st c
 
-theorem runFrom_cinv (cfg : Cfg) : ∀ (is : List In) (n : Nat) (st : State), Inv st → CInv st → CInv (runFrom cfg n st is).1
+theorem runFrom_cinv (cfg : Cfg) : ∀ (is : List In) (n : Nat) (st : State), Inv cfg st → CInv st → CInv (runFrom cfg n st is).1
   | [], _, _, _, c => c
   | i :: is, n, st, h, c => by
     simp only [runFrom]
@@ -237,6 +249,6 @@ theorem runFrom_cinv (cfg : Cfg) : ∀ (is : List In) (n : Nat) (st : State), In
 
 /-- in every reachable state `sessionsCurrent` is the number of open sessions -/
 theorem run_cinv (cfg : Cfg) (is : List In) : (run cfg is).1.sessionsCurrent = countOpen (run cfg is).1.sessions (run cfg is).1.nextSid :=
-  runFrom_cinv cfg is 0 {} inv_init rfl
+  runFrom_cinv cfg is 0 {} (inv_init cfg) rfl
 
 end Iora.Udp
